@@ -22,6 +22,8 @@ type Token struct {
 	Class byte
 	Op    string
 	Pos   int
+	// InMulti: the input belongs to a layer inside a branch of a multi-cause node
+	InMulti bool
 }
 
 var tokRe = regexp.MustCompile(`T[0-9]+q`)
@@ -88,7 +90,18 @@ func inputClass(r *R, i int) byte {
 
 // Taint rewrites the string inputs of a recipe in place, adding one fresh token to each
 // non-empty classified input, and returns the tokens.
-func (g *Gen) Taint(r *R, acc []Token) []Token {
+func (g *Gen) Taint(r *R, acc []Token) []Token { return g.taint(r, acc, false) }
+
+func isMultiOp(op string) bool {
+	for _, m := range multiOps {
+		if m == op {
+			return true
+		}
+	}
+	return false
+}
+
+func (g *Gen) taint(r *R, acc []Token, inMulti bool) []Token {
 	if r == nil {
 		return acc
 	}
@@ -98,7 +111,7 @@ func (g *Gen) Taint(r *R, acc []Token) []Token {
 		}
 		g.nextTok++
 		t := fmt.Sprintf("T%dq", g.nextTok)
-		acc = append(acc, Token{t, class, r.Op, pos})
+		acc = append(acc, Token{t, class, r.Op, pos, inMulti})
 		switch g.rng.Intn(3) {
 		case 0:
 			return t + s
@@ -126,8 +139,18 @@ func (g *Gen) Taint(r *R, acc []Token) []Token {
 		a := add(*r.Arg, inputClass(r, -1), -1)
 		r.Arg = &a
 	}
-	for _, k := range r.K {
-		acc = g.Taint(k, acc)
+	for i, k := range r.K {
+		n := len(acc)
+		acc = g.taint(k, acc, inMulti || isMultiOp(r.Op))
+		if r.Op == "mark" && i == 1 {
+			// the reference of a Mark contributes only its (unsafe) message and its types:
+			// its safe inputs are not expected to be retained
+			for j := n; j < len(acc); j++ {
+				if acc[j].Class == 'S' {
+					acc[j].Class = 'R'
+				}
+			}
+		}
 	}
 	return acc
 }
@@ -323,8 +346,15 @@ func oracleC12(res *Result, c *Case) {
 			}
 			res.OracleEvals["C12.token_checks"]++
 			if !strings.Contains(text, t.Tok) {
-				res.fail(c, "C12", fmt.Sprintf("%s: safe input %s (op %s, input %d) is in neither the report nor the safe details",
-					st.Name, t.Tok, t.Op, t.Pos), fmt.Sprintf("C12:lost:%s:%d", t.Op, t.Pos))
+				sig := fmt.Sprintf("C12:lost:%s:%d", t.Op, t.Pos)
+				where := ""
+				if t.InMulti && (t.Op == "uleaf" || t.Op == "uwrap" || t.Op == "tags") {
+					// the safe details of a layer inside a multi-cause branch (known finding D14)
+					sig = "C12:lost-in-multi-branch:" + t.Op
+					where = " (a safe detail of a layer inside a multi-cause branch)"
+				}
+				res.fail(c, "C12", fmt.Sprintf("%s: safe input %s (op %s, input %d) is in neither the report nor the safe details%s",
+					st.Name, t.Tok, t.Op, t.Pos, where), sig)
 			}
 		}
 	}
